@@ -41,7 +41,8 @@ PROPERTY = 'C17'
 ASSUMPTIONS = [
     'histories merge versions in non-decreasing stamp order (decreasing stamps excluded; the only decreasing-stamp '
     'merge made is the idempotence edge, re-merging a version that is already current in the store)',
-    'single-column float series only; multi-column frames and the _column_names machinery are excluded',
+    'single-column float data only (Series; suite frameform: one-column DataFrames); multi-column frames and the _column_names machinery are excluded',
+    'a version is handed over as a Bi frame built by Bi(version, stamp), or (suite plainform) as a plain series stamped by bi_merge through asof= / existing_data=',
     "what in {-1, 0} only; what in {'first','last','all', other ints} excluded",
     'asof is a datetime or None; asof given as a bitemporal frame is excluded',
     'per-date groups stay <= 16 rows: the same-stamp clause relies on pandas/numpy quicksort being an insertion '
@@ -90,9 +91,11 @@ def flatten(history):
     for op in history:
         if op[0] == 'merge':
             pubs.append((op[1], op[2]))
-        elif op[0] == 'mergelist':
+        elif op[0] in ('mergelist', 'plain2'):
             for vd, si in op[1:]:
                 pubs.append((vd, si))
+        elif op[0] == 'plain':
+            pubs.append((op[1], op[2]))
         else:
             raise ValueError('unknown op %r' % (op,))
     return pubs
@@ -309,6 +312,10 @@ def show_history(history):
     for op in history:
         if op[0] == 'merge':
             parts.append('merge(%s @s%d)' % (sv(op[1]), op[2] + 1))
+        elif op[0] == 'plain':
+            parts.append('merge(plain %s, asof=s%d)' % (sv(op[1]), op[2] + 1))
+        elif op[0] == 'plain2':
+            parts.append('bi_merge(plain %s, plain %s, asof=s%d, existing_data=s%d)' % (sv(op[1][0]), sv(op[2][0]), op[2][1] + 1, op[1][1] + 1))
         else:
             parts.append('merge([%s])' % ', '.join('%s @s%d' % (sv(vd), si + 1) for vd, si in op[1:]))
     return ' ; '.join(parts)
@@ -319,9 +326,10 @@ def show_history(history):
 class History(BfsSuite):
     crosscheck_depth = 1          # the hash-seed self test re-runs depth 1 only (BFS cannot be strided)
 
-    def __init__(self, name, depth, rule, bounds, versions):
+    def __init__(self, name, depth, rule, bounds, versions, container='series'):
         BfsSuite.__init__(self, name, depth, rule, bounds)
         self.versions = versions
+        self.container = container          # 'series' | 'frame' (a version handed over as a one-column DataFrame)
 
     def initial(self):
         return [[]]
@@ -344,26 +352,33 @@ class History(BfsSuite):
         stamps = [si for _, si in pubs]
         if any(a > b for a, b in zip(stamps, stamps[1:])):
             raise ValueError('history with decreasing stamps: %r' % (history,))
-        H = show_history(history)
+        H = show_history(history) + (' [versions as one-column frames]' if self.container == 'frame' else '')
         model = Model(pubs)
-        has_list = any(op[0] == 'mergelist' for op in history)
-
-        def new_frames(op):
-            """fresh version series and Bi frames of one op"""
-            items = [(op[1], op[2])] if op[0] == 'merge' else [tuple(x) for x in op[1:]]
-            sers = [mk_series(vd) for vd, si in items]
-            bis = [Bi(s, S[si]) for s, (vd, si) in zip(sers, items)]
-            return sers, bis
+        has_list = any(op[0] != 'merge' for op in history)
+        mk = mk_series if self.container == 'series' else (lambda vd: mk_series(vd).to_frame('x'))
 
         def apply_op(store, op, check):
-            sers, bis = new_frames(op)
-            arg = bis[0] if op[0] == 'merge' else list(bis)
-            if check:
-                before = [snap(store)] + [snap(b) for b in bis] + [snap(s) for s in sers]
-            new = bi_merge(store, arg)
+            items = [(op[1], op[2])] if op[0] in ('merge', 'plain') else [tuple(x) for x in op[1:]]
+            sers = [mk(vd) for vd, si in items]                       # fresh version objects of this op
+            sers0 = [snap(x) for x in sers]                           # ... as the publisher built them, before Bi / bi_merge see them
+            bis = [] if op[0] in ('plain', 'plain2') else [Bi(x, S[si]) for x, (vd, si) in zip(sers, items)]
+            before = [snap(store)] + [snap(b) for b in bis]
+            if op[0] == 'merge':
+                new = bi_merge(store, bis[0])
+            elif op[0] == 'mergelist':
+                new = bi_merge(store, list(bis))
+            elif op[0] == 'plain':
+                new = bi_merge(store, sers[0], asof=S[op[2]])
+            elif op[0] == 'plain2':
+                if store is not None:
+                    raise ValueError('plain2 is a first operation')
+                new = bi_merge(sers[0], sers[1], asof=S[op[2][1]], existing_data=S[op[1][1]])
+            else:
+                raise ValueError('unknown op %r' % (op,))
             if check:
                 out.call()
-                after = [snap(store)] + [snap(b) for b in bis] + [snap(s) for s in sers]
+                after = [snap(store)] + [snap(b) for b in bis] + [snap(x) for x in sers]
+                before = before + sers0
                 names = ['store'] + ['new frame'] * len(bis) + ['version series'] * len(sers)
                 for nm, a, b in zip(names, before, after):
                     if a != b:
@@ -390,7 +405,7 @@ class History(BfsSuite):
                 seq = [None]
                 s2 = None
                 for vd, si in pubs[:-1]:
-                    s2 = bi_merge(s2, Bi(mk_series(vd), S[si]))
+                    s2 = bi_merge(s2, Bi(mk(vd), S[si]))
                     seq.append(s2)
             except Exception as e:
                 out.viol('merge-raised', '%s: merging its publications one by one raised %s: %s' % (H, type(e).__name__, e),
@@ -410,7 +425,7 @@ class History(BfsSuite):
             if not model.current(vd, si):
                 out.cls('remerge-superseded-skipped')
                 continue
-            b = Bi(mk_series(vd), S[si])
+            b = Bi(mk(vd), S[si])
             sa, sb = snap(A), snap(b)
             try:
                 R = bi_merge(A, b)
@@ -567,8 +582,46 @@ _VISITOR = History('visitor', 0, '', {}, VERSIONS)
 
 def check_history(case):
     """E2 form: one complete history (used for the list form, whose fan-out sits on a single predecessor)"""
+    _VISITOR.container = case.get('container', 'series')
     out, key, exp = _VISITOR.visit(case['history'])
     return out
+
+
+QUICK_STAMP_PAIRS = [(0, 0), (0, 1), (1, 2)]
+
+
+def gen_plainform(tier):
+    """the versions handed to bi_merge as PLAIN series, stamped through its asof / existing_data arguments:
+    bi_merge(plain v0, plain v1, asof=s_j, existing_data=s_i) for i <= j, optionally followed by bi_merge(store, plain v2, asof=s_k), k >= j;
+    and bi_merge(None, plain v0, asof=s_i) followed by bi_merge(store, plain v1, asof=s_j)"""
+    third = VERSIONS if tier != 'quick' else []
+    for si in range(len(S)):
+        for sj in range(si, len(S)):
+            if tier == 'quick' and (si, sj) not in QUICK_STAMP_PAIRS:
+                continue
+            for v0 in VERSIONS:
+                for v1 in VERSIONS:
+                    yield {'history': [['plain2', [v0, si], [v1, sj]]]}
+                    yield {'history': [['plain', v0, si], ['plain', v1, sj]]}
+                    if v0 in third:
+                        for sk in range(sj, len(S)):
+                            for v2 in third:
+                                yield {'history': [['plain2', [v0, si], [v1, sj]], ['plain', v2, sk]]}
+                                yield {'history': [['merge', v0, si], ['plain', v1, sj], ['merge', v2, sk]]}
+
+
+def gen_frameform(tier):
+    """histories whose versions are one-column DataFrames (same column name throughout)"""
+    vs = VERSIONS if tier != 'quick' else [v for v in VERSIONS if v[0] is not None]
+    for si in range(len(S)):
+        for sj in range(si, len(S)):
+            if tier == 'quick' and (si, sj) not in QUICK_STAMP_PAIRS:
+                continue
+            for v0 in vs:
+                for v1 in vs:
+                    yield {'history': [['merge', v0, si], ['merge', v1, sj]], 'container': 'frame'}
+                    yield {'history': [['mergelist', [v0, si], [v1, sj]]], 'container': 'frame'}
+                    yield {'history': [['plain2', [v0, si], [v1, sj]]], 'container': 'frame'}
 
 
 def gen_listform(first_versions):
@@ -691,6 +744,15 @@ def suites(tier, seed):
               rule='stores of more than 16 rows: every sequence of 2..%d publications over %d observation dates (the same value on every date, NaN, alternating, '
                    'every other date) x non-decreasing stamps from {s1, s2}; reads at s1, s2 and latest against the publication-list model; non-trivial = two '
                    'publications share a stamp' % (3 if tier == 'quick' else 4, WIDE_N), bounds=dict(dates=WIDE_N, max_publications=3 if tier == 'quick' else 4)),
+        Suite('plainform', lambda: gen_plainform(tier), check_history,
+              rule='versions handed over as PLAIN series and stamped by bi_merge itself: bi_merge(plain v0, plain v1, asof=s_j, existing_data=s_i) and '
+                   'bi_merge(bi_merge(None, plain v0, asof=s_i), plain v1, asof=s_j) for every pair of versions and %s; same checks as the history suite'
+                   % ('(i, j) in %s' % QUICK_STAMP_PAIRS if tier == 'quick' else 'every i <= j, each followed by every third publication (as plain series or as Bi frame)'),
+              bounds=dict(common, max_publications=3)),
+        Suite('frameform', lambda: gen_frameform(tier), check_history,
+              rule='the versions as one-column DataFrames instead of Series (%s): two merges, the list form and the plain form; same checks as the history suite, '
+                   'in particular the publisher\'s frames are compared with snapshots taken BEFORE Bi() / bi_merge saw them' % ('versions holding d1, stamp pairs %s' % QUICK_STAMP_PAIRS if tier == 'quick' else 'all 15 versions, all stamp pairs'),
+              bounds=dict(common, max_publications=2)),
         Suite('listform', lambda: gen_listform(first), check_history,
               rule=lrule % (' and bi_merge(bi_merge(None, o), [p, q]) for every triple o, p, q' if first else ''),
               bounds=dict(common, list_length=2, merges_before_the_list=1 if first else 0)),
